@@ -198,8 +198,11 @@ BINARY_OPS = ["+", "-", "*", "/", "%", "<", "<=", ">", ">=", "==", "!=", "in", "
 def illtyped(tier):
     kinds = list(KIND_LEAF)
     seen = set()
-    for k in kinds:
-        for ctx in UNARY_CTX:
+    MAIN = ("int", "double", "string", "list", "map", "null")
+    for ki, k in enumerate(kinds):
+        for ci, ctx in enumerate(UNARY_CTX):
+            if tier == "quick" and k not in MAIN and (ci + ki) % 4:
+                continue  # quick: every context on 6 main kinds, a rotating quarter of the contexts on the other kinds
             src = ctx.format(KIND_LEAF[k])
             if src not in seen:
                 seen.add(src)
@@ -207,10 +210,8 @@ def illtyped(tier):
     pairs = list(itertools.product(kinds, repeat=2))
     for op in BINARY_OPS:
         for a, b in pairs:
-            if tier == "quick" and (hash((op, a, b)) % 3) and not (a == b):
-                # quick: all same-kind pairs + a deterministic third of the mixed pairs
-                if (kinds.index(a) + kinds.index(b) + BINARY_OPS.index(op)) % 3:
-                    continue
+            if tier == "quick" and a != b and (kinds.index(a) * 5 + kinds.index(b) * 3 + BINARY_OPS.index(op)) % 12:
+                continue  # quick: all same-kind pairs + a deterministic twelfth of the mixed pairs
             src = f"{KIND_LEAF[a]} {op} {KIND_LEAF[b]}"
             if src not in seen:
                 seen.add(src)
